@@ -95,6 +95,10 @@ func runC03(c *Ctx) {
 		ng += checkGlobals(c, pd, "C03.R2", []string{PkgDurable})
 	}
 	c.Floor("C03.R2", "configuration field writers", nw, 25)
+	c.Rule("C03.R7", "the SQLite store never starves itself of connections while a stream cursor is open (pool cap, locking mode)")
+	if ps := c.Prog(ModSQLite); ps != nil {
+		checkPoolNotStarved(c, ps, "C03.R7")
+	}
 	c.Stats["package_globals"] = ng
 	// R5 (quick: direct nesting only)
 	runC03LockOrder(c, false)
